@@ -454,6 +454,8 @@ func (index *PatternIndex) searchPairs(ctx *Context, pairs []piPair) (StringSet,
 				return nil, err
 			}
 			ids.AddAll(more)
+			// Patterns that end with an empty map at this key.
+			ids.AddAll(mi.Ids)
 			next = append(next, mi)
 		}
 
@@ -501,7 +503,13 @@ func (index *PatternIndex) searchPairs(ctx *Context, pairs []piPair) (StringSet,
 
 // SearchPatternsMap searchs the index for patterns that match the given fact (or event).
 func (index *PatternIndex) SearchPatternsMap(ctx *Context, fact map[string]interface{}) (StringSet, error) {
-	return index.searchPairs(ctx, mapToPairs(ctx, fact))
+	ids, err := index.searchPairs(ctx, mapToPairs(ctx, fact))
+	if err == nil && index.Ids != nil {
+		// Patterns without any indexable pair (such as the
+		// empty pattern) sit on the root.
+		ids.AddAll(index.Ids)
+	}
+	return ids, err
 }
 
 // AddPatternJSON adds the given pattern (as a map) to the index.
